@@ -361,3 +361,31 @@ def _inside(n: Optional[ast.AST], comp: Optional[ast.AST]) -> bool:
     if n is None or comp is None:
         return False
     return any(x is n for x in ast.walk(comp))
+
+
+# ------------------------------------------------------------- memo keyed by numbers
+def check_numeric_memo(rep: Report, prog: Program, resolver: Resolver, rid: str) -> None:
+    """functools.lru_cache without typed=True conflates 4, 4.0 and Decimal('4'): a memoised
+    function with a parameter that can carry two numeric types returns the first caller's
+    type to the others (the result type then depends on call history)."""
+    from .model import PKG
+    n = 0
+    for q, fi in sorted(prog.functions.items()):
+        if fi.module in ("hypothesis", "pytest") or not prog.is_memoised(fi):
+            continue
+        typed = any("typed=True" in d.replace(" ", "") for d in fi.decorators)
+        mi = prog.modules[fi.module]
+        numeric = []
+        a = fi.node.args  # type: ignore[attr-defined]
+        for x in a.posonlyargs + a.args + a.kwonlyargs:
+            alts = resolver.ann_alts(mi, x.annotation) if x.annotation is not None else []
+            nums = {full for k, full in alts if k == "inst" and full in ("builtins.int", "builtins.float", "decimal.Decimal")}
+            if len(nums) >= 2:
+                numeric.append(x.arg)
+        n += 1
+        rep.check(rid, q, typed or not numeric,
+                  f"{q} is memoised without typed=True and takes numbers of several types for {numeric}: equal values of different "
+                  "types (4, 4.0, Decimal('4')) share one cache slot, so a Decimal operand can come back as float (and vice versa) "
+                  "depending on earlier calls", fi.where())
+    if n == 0:
+        rep.ok(rid, "package", note="no memoised function")
